@@ -59,4 +59,48 @@ def writeAll (c : WCfg) (header : Option (List Str)) (table : List (List (Option
     | none => pure st0
   table.foldlM (writeRec c) st1
 
+/-! ### list-valued cells (`normalize_fields` recursion)
+
+A cell handed to `write` is None, a string, or a list (UNNEST-less `split`, ARRAY_AGG, a user list
+literal …).  `normalize_fields` recurses into the list, turning every None inside it into `''` AND
+setting the same None flag, then joins the items with `sub_array_delim` (`|`, or `;` when the
+delimiter itself is `|`). -/
+
+inductive Cell
+  | none
+  | str (s : Str)
+  | list (xs : List (Option Str))
+  deriving Repr
+
+def subArrayDelim (d : Str) : Str := if d = ['|'] then [';'] else ['|']
+
+/-- the cell after normalisation, as the flat writer sees it -/
+def Cell.flat (d : Str) : Cell → Option Str
+  | .none => Option.none
+  | .str s => some s
+  | .list xs => some (joinD (subArrayDelim d) (xs.map (fun c => c.getD [])))
+
+/-- does normalising this cell meet a None at the top level or inside the list? -/
+def Cell.hasNone : Cell → Bool
+  | .none => true
+  | .str _ => false
+  | .list xs => xs.any (fun c => c.isNone)
+
+/-- None INSIDE a list cell (the flat layer cannot see it any more) -/
+def Cell.nestedNone : Cell → Bool
+  | .list xs => xs.any (fun c => c.isNone)
+  | _ => false
+
+/-- `CSVWriter.write` on general cells -/
+def writeRecCells (c : WCfg) (st : WState) (cells : List Cell) : Except WriteErr WState :=
+  writeRec c { st with noneSeen := st.noneSeen || cells.any Cell.nestedNone } (cells.map (Cell.flat c.delim))
+
+def writeAllCells (c : WCfg) (header : Option (List Str)) (table : List (List Cell)) :
+    Except WriteErr WState := do
+  let st0 : WState := {}
+  let st1 ← match header with
+    | some h => writeRec c { st0 with headerLen := some h.length } (h.map some)
+    | none => pure st0
+  table.foldlM (writeRecCells c) st1
+
 end Rbql
